@@ -712,6 +712,7 @@ def replace(eq: str, term: str, replacement: str, rhs_only: tp.Optional[bool] = 
 
     eq_new = ""
     idx = eq.find(term)
+    passed_assign = False  # whether the part of the equation consumed so far contains the `=` sign
 
     # go through all appearances of term in eq
     while idx != -1:
@@ -725,13 +726,15 @@ def replace(eq: str, term: str, replacement: str, rhs_only: tp.Optional[bool] = 
            (idx == 0 or eq[idx-1] in allowed_follow_ops)) or \
                 (idx_follow_op == len(eq) and eq[idx-1] in allowed_follow_ops):
             eq_part = eq[:idx]
-            if (rhs_only and "=" in eq_part) or (lhs_only and "=" not in eq_part) or (not rhs_only and not lhs_only):
+            on_rhs = passed_assign or "=" in eq_part
+            if (rhs_only and on_rhs) or (lhs_only and not on_rhs) or (not rhs_only and not lhs_only):
                 eq_new += f"{eq_part}{replacement}"
                 replaced = True
         if not replaced:
             eq_new += f"{eq[:idx_follow_op]}"
 
         # jump to next appearance of term in eq
+        passed_assign = passed_assign or "=" in eq[:idx_follow_op]
         eq = eq[idx_follow_op:]
         idx = eq.find(term)
 
